@@ -135,7 +135,9 @@ Proof.
   unfold remove, gen_remove, gen_cellagent_remove, gen_fixedagent_remove. cbv zeta.
   destruct (e_kind e a).
   - rewrite rebind_id. apply set_cell_bridge.
-  - cbn [ptr set_reg]. destruct (ptr s a) as [c|]; cbn [opt_eqb negb]; [|reflexivity].
+  - cbn [ptr set_reg]. destruct (ptr s a) as [c|]; cbn [opt_eqb negb andb]; [|reflexivity].
+    unfold gen_cell_agents. cbn [content set_reg].
+    destruct (memz a (content s c)); [|reflexivity].
     rewrite <- remove_agent_bridge. rewrite rebind_id.
     destruct (remove_agent (set_reg s a false) c a) as [s1 [er|]]; reflexivity.
   - rewrite rebind_id. apply set_cell_bridge.
